@@ -123,6 +123,15 @@ def build_document(h):
                     b.attrs["__children__"][:] = []
         if loc == "SequenceContainer" and e.attrs["attrib"].get("name") in ("A", "D1"):
             e.attrs["attrib"].pop("abstract", None)       # absent attribute = concrete
+    # the nested block is declared AFTER the containers that use it (it is parsed on demand from inside their entry lists) and
+    # carries its own abstract flag, which must not leak into its users
+    for cs in [e for e in all_elements(g) if split_tag(e.attrs["tag"])[1] == "ContainerSet"]:
+        kids = cs.attrs["__children__"]
+        blk = [k for k in kids if getattr(k, "attrs", {}).get("attrib", {}).get("name") == "BLK"]
+        for b in blk:
+            kids.remove(b)
+            b.attrs["attrib"]["abstract"] = "true"
+            kids.append(b)
     attach_nsmap(g)
     return g
 
